@@ -11,10 +11,13 @@ Proof.
   intros H. unfold Casts.slice_get, Rawdata.get, buf_len. rewrite (proj2 (Z.leb_le 0 i) H). reflexivity.
 Qed.
 
+Lemma slice_set_nat_upd (buf : list Z) n v : Casts.slice_set_nat buf n v = upd buf n v.
+Proof. revert n. induction buf as [|x r IH]; intros [|n]; cbn; try reflexivity. rewrite IH. reflexivity. Qed.
+
 Lemma slice_set_eq buf i v : 0 <= i -> Casts.slice_set buf i v = upd buf (Z.to_nat i) v.
 Proof.
   intros H. unfold Casts.slice_set. rewrite (proj2 (Z.leb_le 0 i) H).
-  reflexivity.
+  apply slice_set_nat_upd.
 Qed.
 
 Lemma src_load_bits_eq t alt buf index :
